@@ -1891,9 +1891,26 @@ impl<'m> Machine<'m> {
         Op::I32Clz => un32!(self.stack, sp, |a| a.leading_zeros() as i32),
         Op::I32Ctz => un32!(self.stack, sp, |a| a.trailing_zeros() as i32),
         Op::I32Popcnt => un32!(self.stack, sp, |a| a.count_ones() as i32),
-        Op::I32Add => bin32!(self.stack, sp, |a, b| a.wrapping_add(b)),
-        Op::I32Sub => bin32!(self.stack, sp, |a, b| a.wrapping_sub(b)),
-        Op::I32Mul => bin32!(self.stack, sp, |a, b| a.wrapping_mul(b)),
+        // 32-bit overflow is implementation-defined in samlang: remember that it happened so that
+        // the verifier can exclude the run (conservative: any i32 add/sub/mul of the module counts)
+        Op::I32Add => bin32!(self.stack, sp, |a, b| {
+          if a.checked_add(b).is_none() {
+            OVERFLOW_SEEN.store(true, std::sync::atomic::Ordering::Relaxed);
+          }
+          a.wrapping_add(b)
+        }),
+        Op::I32Sub => bin32!(self.stack, sp, |a, b| {
+          if a.checked_sub(b).is_none() {
+            OVERFLOW_SEEN.store(true, std::sync::atomic::Ordering::Relaxed);
+          }
+          a.wrapping_sub(b)
+        }),
+        Op::I32Mul => bin32!(self.stack, sp, |a, b| {
+          if a.checked_mul(b).is_none() {
+            OVERFLOW_SEEN.store(true, std::sync::atomic::Ordering::Relaxed);
+          }
+          a.wrapping_mul(b)
+        }),
         Op::I32DivS => {
           let b = self.stack[sp - 1] as u32 as i32;
           let a = self.stack[sp - 2] as u32 as i32;
@@ -2496,7 +2513,12 @@ fn run_module(m: &Module, main_fn: &str, fuel: u64) -> Result<Run, String> {
 
 /// Instantiates the module and calls the exported zero-argument function `main_fn`.
 /// `Err` is reserved for tool problems (invalid module, unsupported opcode, missing export).
+/// Set when an i32 add/sub/mul of the last `run_wasm` call on this process overflowed
+/// (reset at the start of every run; runs are sequential per process).
+pub static OVERFLOW_SEEN: std::sync::atomic::AtomicBool = std::sync::atomic::AtomicBool::new(false);
+
 pub fn run_wasm(wasm: &[u8], main_fn: &str, fuel: u64) -> Result<Run, String> {
+  OVERFLOW_SEEN.store(false, std::sync::atomic::Ordering::Relaxed);
   let t0 = std::time::Instant::now();
   validate_wasm(wasm)?;
   let t1 = std::time::Instant::now();
